@@ -2029,10 +2029,14 @@ fn lower_pat(ctx: &mut LowerCtx, node: cst::Pattern) -> Option<ast::Pat> {
                 ctx.push_error(Some(token.text_range()), "StringPat has no value");
                 return None;
             };
-            Some(ast::Pat::PString {
-                value: value.to_string(),
-                astptr,
-            })
+            let Some(value) = unescape_string(value) else {
+                ctx.push_error(
+                    Some(token.text_range()),
+                    "Invalid unicode escape in string literal",
+                );
+                return None;
+            };
+            Some(ast::Pat::PString { value, astptr })
         }
         cst::Pattern::ConstrPat(it) => {
             let astptr = MySyntaxNodePtr::new(it.syntax());
